@@ -1121,12 +1121,16 @@ static void final_checks(enum mc_end end)
             cause = "injected-fault";
         else if (x->conn_fault)
             cause = "failed-establishment";
-        else if (x->peer_end != END_ALIVE && !x->fault_errno)
+        else if ((x->peer_end == END_ORDERLY || x->peer_end == END_RESET) && !x->fault_errno)
             cause = endname(x->peer_end);
         if (cause && x->waiting_R && end == MC_END_QUIESCENT) {
             snprintf(sig, sizeof sig, "C06/never-reported/cause=%s/tp=%s", cause, g_tp);
             viol(sig, "%s awaits XCM_SO_RECEIVABLE after xcm_receive said EAGAIN; the system is quiescent (no descriptor "
                  "readable, no timer, no environment event) yet the terminal condition (%s) was never reported", x->name, cause);
+        } else if (cause && end == MC_END_HORIZON && x->last_kind == K_AGAIN) {
+            snprintf(sig, sizeof sig, "C06/never-reported/spinning/cause=%s/tp=%s", cause, g_tp);
+            viol(sig, "%s: after %d scheduler steps xcm_%s still answers EAGAIN; the terminal condition (%s) was never reported",
+                 x->name, mc_steps(), CALLN[x->last_call], cause);
         }
     }
 }
